@@ -30,8 +30,8 @@ var c17Internal = map[string]bool{
 	"RoleManager.UpdateAppchainAdmin": true, "RoleManager.OccupyAccount": true, "RoleManager.FreeAccount": true, "RoleManager.PauseAuditAdmin": true, "RoleManager.PauseAuditAdminBinding": true, "RoleManager.RestoreAuditAdminBinding": true,
 	"NodeManager.BindNode": true, "NodeManager.ManageBindNode": true, "NodeManager.UnbindNode": true,
 	"GovStrategy.UpdateProposalStrategyByRolesChange": true,
-	"ServiceRegistry.Manage":           true,
-	"InterchainManager.HandleIBTPData": true, "InterchainManager.HandleIBTP": true, "InterchainManager.ProcessIBTP": true, "InterchainManager.DeleteInterchain": true,
+	"ServiceRegistry.Manage":                          true,
+	"InterchainManager.HandleIBTPData":                true, "InterchainManager.HandleIBTP": true, "InterchainManager.ProcessIBTP": true, "InterchainManager.DeleteInterchain": true,
 }
 
 // governance admins only
@@ -102,6 +102,124 @@ func c17Property(t *rapid.T) {
 	ops = append(ops, fmt.Sprintf("world traffic audit=%v, %d methods x %d roles", audit, len(methods), len(roles)))
 	st := sim.StatsFor("C17")
 	reachedLabels := map[string]bool{}
+	// checkCall executes one direct invocation in a block of its own and applies the oracle
+	checkCall := func(name, addr, method string, role c17Role, args []*pb.Arg, sample bool, extraClass, forceMustFail string) {
+		tx := sim.InvokeTx(role.key, w.Nonces.Next(role.key), w.TS+1, pb.TransactionData_BVM, types.NewAddressByStr(addr), method, args...)
+		before := sim.DumpState(w.N.StateDB)
+		tpBefore := thirdPartyRecords(before)
+		w.TS += 2
+		b := &blockSpec{ts: w.TS, txs: []*txSpec{{tx: tx, desc: name}}}
+		h := w.N.Height()
+		if _, err := w.N.ExecBlock(b.event(h + 1)); err != nil {
+			f.fail("block %d not executed: %v", h+1, err)
+		}
+		r := checkExecuted(w.N, h, b, f)[0]
+		after := sim.DumpState(w.N.StateDB)
+		line := fmt.Sprintf("%s by %s args=%s -> ok=%v ret=%.80q", name, role.name, argsString(args), r.IsSuccess(), r.Ret)
+		mustFail := ""
+		switch {
+		case c17Internal[name]:
+			mustFail = "contract-to-contract entry point"
+		case c17GovAdmin[name] && role.name != "governance-admin":
+			mustFail = "reserved to governance admins"
+		case c17ChainAdmin[name] != "" && role.name != "admin-of-the-target-appchain":
+			mustFail = "reserved to the admin of chainB"
+		case c17ChainAdminOrGov[name] != "" && role.name != "admin-of-the-target-appchain" && role.name != "governance-admin":
+			mustFail = "reserved to the admin of chainB or governance admins"
+		}
+		if forceMustFail != "" {
+			mustFail = forceMustFail
+		}
+		ret := string(r.Ret)
+		parsed := !(strings.Contains(ret, "not such method") || strings.Contains(ret, "parse args") || strings.Contains(ret, "reflect:") || strings.Contains(ret, "unmarshal invoke payload"))
+		if parsed {
+			reachedLabels[name+"/"+role.name] = true
+		}
+		if mustFail != "" {
+			if r.IsSuccess() {
+				ops = append(ops, line)
+				f.fail("%s (%s) succeeded when invoked directly by %s", name, mustFail, role.name)
+			}
+			allowed := map[string]bool{sim.AccountKey(role.key.Addr): true}
+			for _, a := range w.N.Admins {
+				allowed[sim.AccountKey(a.Addr)] = true
+			}
+			for _, k := range sim.DiffDumps(before, after) {
+				if !allowed[k] {
+					ops = append(ops, line)
+					f.fail("%s (%s) invoked directly by %s failed but changed state key %s", name, mustFail, role.name, sim.PrettyKey(k))
+				}
+			}
+		}
+		// whatever the call: existing interchain counters, index records and transaction records of other parties stay as they are
+		tpAfter := thirdPartyRecords(after)
+		for k, v := range tpBefore {
+			if v2, ok := tpAfter[k]; !ok || string(v2) != string(v) {
+				ops = append(ops, line)
+				f.fail("%s invoked directly by %s modified the existing record %s:\n%s", name, role.name, sim.PrettyKey(k), sim.DescribeDiff(before, after, []string{k}, 1))
+			}
+		}
+		ntKey := ""
+		if parsed {
+			ntKey = name + "/" + role.name + "/" + argsString(args) + fmt.Sprintf("/%v", audit)
+		}
+		cls := []string{"role:" + role.name}
+		if extraClass != "" {
+			cls = append(cls, extraClass)
+		}
+		if mustFail != "" {
+			cls = append(cls, "asserted-must-fail")
+		}
+		st.Case(ntKey, cls...)
+		if st.WantSample() && sample {
+			st.Sample(line)
+		}
+	}
+	// first pass (before the sweep changes the objects): well-formed calls of privileged entry points on existing objects (chainB, its service, the node, the
+	// open proposal), exactly as the entitled caller would send them, replayed by every role. Arbitrary arguments rarely
+	// pass the argument checks that come before or after a permission check; a well-formed call does.
+	nodeAddr := sim.KeyFor("node-1").Addr.String()
+	bAdmin := sim.ChainAdmins["chainB"].Addr.String()
+	wf := []struct {
+		contract string
+		addr     constant.BoltContractAddress
+		method   string
+		args     []*pb.Arg
+		entitled string // comma separated role names that may make this call (from the permission lists in the code)
+	}{
+		{"ServiceManager", constant.ServiceMgrContractAddr, "UpdateService", []*pb.Arg{pb.String("chainB:s1"), pb.String("svc-chainB-s1"), pb.String("another intro"), pb.String(""), pb.String("details"), pb.String("r")}, "admin-of-the-target-appchain"},
+		{"ServiceManager", constant.ServiceMgrContractAddr, "UpdateService", []*pb.Arg{pb.String("chainB:s1"), pb.String("svc-chainB-s1"), pb.String("intro"), pb.String(sim.FullID(w.BxhID, "chainA", "s1")), pb.String("details"), pb.String("r")}, "admin-of-the-target-appchain"},
+		{"ServiceManager", constant.ServiceMgrContractAddr, "UpdateService", []*pb.Arg{pb.String("chainB:s1"), pb.String("svc-renamed"), pb.String("intro"), pb.String(""), pb.String("other details"), pb.String("r")}, "admin-of-the-target-appchain"},
+		{"ServiceManager", constant.ServiceMgrContractAddr, "RegisterService", []*pb.Arg{pb.String("chainB"), pb.String("wfsvc"), pb.String("svc-chainB-wf"), pb.String("CallContract"), pb.String("intro"), pb.Uint64(1), pb.String(""), pb.String("details"), pb.String("r")}, "admin-of-the-target-appchain"},
+		{"ServiceManager", constant.ServiceMgrContractAddr, "FreezeService", []*pb.Arg{pb.String("chainB:s1"), pb.String("r")}, "governance-admin"},
+		{"ServiceManager", constant.ServiceMgrContractAddr, "LogoutService", []*pb.Arg{pb.String("chainB:s1"), pb.String("r")}, "admin-of-the-target-appchain"},
+		{"AppchainManager", constant.AppchainMgrContractAddr, "UpdateAppchain", []*pb.Arg{pb.String("chainB"), pb.String("name-chainB"), pb.String("another desc"), pb.Bytes(nil), pb.String(bAdmin), pb.String("r")}, "admin-of-the-target-appchain"},
+		{"AppchainManager", constant.AppchainMgrContractAddr, "UpdateAppchain", []*pb.Arg{pb.String("chainB"), pb.String("name-chainB-2"), pb.String("desc"), pb.Bytes(nil), pb.String(bAdmin), pb.String("r")}, "admin-of-the-target-appchain"},
+		{"AppchainManager", constant.AppchainMgrContractAddr, "FreezeAppchain", []*pb.Arg{pb.String("chainB"), pb.String("r")}, "governance-admin"},
+		{"AppchainManager", constant.AppchainMgrContractAddr, "LogoutAppchain", []*pb.Arg{pb.String("chainB"), pb.String("r")}, "admin-of-the-target-appchain"},
+		{"RuleManager", constant.RuleManagerContractAddr, "RegisterRule", []*pb.Arg{pb.String("chainB"), pb.String("0x00000000000000000000000000000000000000a2"), pb.String("http://r")}, "admin-of-the-target-appchain"},
+		{"RuleManager", constant.RuleManagerContractAddr, "UpdateMasterRule", []*pb.Arg{pb.String("chainB"), pb.String("0x00000000000000000000000000000000000000a2"), pb.String("r")}, "admin-of-the-target-appchain"},
+		{"RuleManager", constant.RuleManagerContractAddr, "LogoutRule", []*pb.Arg{pb.String("chainB"), pb.String("0x00000000000000000000000000000000000000a2")}, "admin-of-the-target-appchain"},
+		{"NodeManager", constant.NodeManagerContractAddr, "UpdateNode", []*pb.Arg{pb.String(nodeAddr), pb.String("node-renamed"), pb.String("chainA"), pb.String("r")}, "governance-admin"},
+		{"NodeManager", constant.NodeManagerContractAddr, "LogoutNode", []*pb.Arg{pb.String(nodeAddr), pb.String("r")}, "governance-admin"},
+		{"RoleManager", constant.RoleContractAddr, "FreezeRole", []*pb.Arg{pb.String(w.N.Admins[1].Addr.String()), pb.String("r")}, "governance-admin"},
+		{"RoleManager", constant.RoleContractAddr, "ActivateRole", []*pb.Arg{pb.String(sim.KeyFor("c17-frozen").Addr.String()), pb.String("r")}, "governance-admin,frozen-governance-admin"},
+		{"RoleManager", constant.RoleContractAddr, "RegisterRole", []*pb.Arg{pb.String(sim.KeyFor("c17-wf-candidate").Addr.String()), pb.String("governanceAdmin"), pb.String(""), pb.String("r")}, "governance-admin"},
+		{"Governance", constant.GovernanceContractAddr, "WithdrawProposal", []*pb.Arg{pb.String(tpl.Data["openProposal"]), pb.String("r")}, ""},
+		{"Governance", constant.GovernanceContractAddr, "Vote", []*pb.Arg{pb.String(tpl.Data["openProposal"]), pb.String("approve"), pb.String("r")}, "governance-admin"},
+		{"GovStrategy", constant.ProposalStrategyMgrContractAddr, "UpdateProposalStrategy", []*pb.Arg{pb.String("appchain_mgr"), pb.String("SimpleMajority"), pb.String("a >= 1"), pb.String("r")}, "governance-admin"},
+	}
+	for wi, c := range wf {
+		name := c.contract + "." + c.method
+		for ri, role := range roles {
+			// entitled callers really change the objects; they are not part of this pass (the sweep covers them)
+			if strings.Contains(","+c.entitled+",", ","+role.name+",") {
+				continue
+			}
+			args := append([]*pb.Arg(nil), c.args...)
+			checkCall(name, c.addr.Address().String(), c.method, role, args, wi%5 == 0 && ri == 0, "well-formed-privileged-call-by-unentitled-role", "well-formed call by a caller who is not entitled to it")
+		}
+	}
 	// full sweep: every method x every role, one drawn argument vector each
 	for mi, m := range methods {
 		name := m.Contract + "." + m.Name
@@ -131,70 +249,7 @@ func c17Property(t *rapid.T) {
 				}
 				args = append(args, a)
 			}
-			tx := sim.InvokeTx(role.key, w.Nonces.Next(role.key), w.TS+1, pb.TransactionData_BVM, types.NewAddressByStr(m.Addr), m.Name, args...)
-			before := sim.DumpState(w.N.StateDB)
-			tpBefore := thirdPartyRecords(before)
-			w.TS += 2
-			b := &blockSpec{ts: w.TS, txs: []*txSpec{{tx: tx, desc: name}}}
-			h := w.N.Height()
-			if _, err := w.N.ExecBlock(b.event(h + 1)); err != nil {
-				f.fail("block %d not executed: %v", h+1, err)
-			}
-			r := checkExecuted(w.N, h, b, f)[0]
-			after := sim.DumpState(w.N.StateDB)
-			line := fmt.Sprintf("%s by %s args=%s -> ok=%v ret=%.80q", name, role.name, argsString(args), r.IsSuccess(), r.Ret)
-			mustFail := ""
-			switch {
-			case c17Internal[name]:
-				mustFail = "contract-to-contract entry point"
-			case c17GovAdmin[name] && role.name != "governance-admin":
-				mustFail = "reserved to governance admins"
-			case c17ChainAdmin[name] != "" && role.name != "admin-of-the-target-appchain":
-				mustFail = "reserved to the admin of chainB"
-			case c17ChainAdminOrGov[name] != "" && role.name != "admin-of-the-target-appchain" && role.name != "governance-admin":
-				mustFail = "reserved to the admin of chainB or governance admins"
-			}
-			ret := string(r.Ret)
-			parsed := !(strings.Contains(ret, "not such method") || strings.Contains(ret, "parse args") || strings.Contains(ret, "reflect:") || strings.Contains(ret, "unmarshal invoke payload"))
-			if parsed {
-				reachedLabels[name+"/"+role.name] = true
-			}
-			if mustFail != "" {
-				if r.IsSuccess() {
-					ops = append(ops, line)
-					f.fail("%s (%s) succeeded when invoked directly by %s", name, mustFail, role.name)
-				}
-				allowed := map[string]bool{sim.AccountKey(role.key.Addr): true}
-				for _, a := range w.N.Admins {
-					allowed[sim.AccountKey(a.Addr)] = true
-				}
-				for _, k := range sim.DiffDumps(before, after) {
-					if !allowed[k] {
-						ops = append(ops, line)
-						f.fail("%s (%s) invoked directly by %s failed but changed state key %s", name, mustFail, role.name, sim.PrettyKey(k))
-					}
-				}
-			}
-			// whatever the call: existing interchain counters, index records and transaction records of other parties stay as they are
-			tpAfter := thirdPartyRecords(after)
-			for k, v := range tpBefore {
-				if v2, ok := tpAfter[k]; !ok || string(v2) != string(v) {
-					ops = append(ops, line)
-					f.fail("%s invoked directly by %s modified the existing record %s:\n%s", name, role.name, sim.PrettyKey(k), sim.DescribeDiff(before, after, []string{k}, 1))
-				}
-			}
-			ntKey := ""
-			if parsed {
-				ntKey = name + "/" + role.name + "/" + argsString(args) + fmt.Sprintf("/%v", audit)
-			}
-			cls := []string{"role:" + role.name}
-			if mustFail != "" {
-				cls = append(cls, "asserted-must-fail")
-			}
-			st.Case(ntKey, cls...)
-			if st.WantSample() && mi%37 == 3 && ri == 0 {
-				st.Sample(line)
-			}
+			checkCall(name, m.Addr, m.Name, role, args, mi%37 == 3 && ri == 0, "", "")
 		}
 	}
 	st.Exhaustive = true
